@@ -3,7 +3,8 @@
      spec  : case line | c-result  -> "ok" | "bad" | "pre"   (boolean spec checker on the C observation)
    cases:  c1 <function> <param> <element>...    element = 'L' prefix of the literal | 'H' <class letter> raw bytes
            c2 <text of control file nomail>
-           c3 <function answering with a fixed literal> *)
+           c3 <function answering with a fixed literal>
+           c4 <heloname> <badcmds, one octet> <line>...     wait_for_quit() reading these command lines *)
 open M
 
 let show = function
@@ -33,6 +34,8 @@ let model fs = match fs with
       (match literal_model (bytes_of_hex func) with
        | [l] -> "OK " ^ hex_of_bytes l
        | _ -> "NOLITERAL")
+  | "c4" :: helo :: bad :: lines ->
+      show (wait_for_quit (bytes_of_hex helo) (List.map bytes_of_hex lines) (nat_of_int (List.hd (ints_of_hex bad))))
   | _ -> "BADCASE"
 
 let file_line_ok raw = List.for_all (fun x -> x <> 0 && x <> 10 && x <> 35) (ints_of_hex raw) && raw <> "-"
@@ -49,7 +52,8 @@ let spec fs obs = match fs, obs with
   | ["c2"; raw], _ when not (file_line_ok raw) -> "pre"
   | ["c2"; raw], "OK" :: lines -> if spec_ok_nomail (bytes_of_hex raw) (List.map bytes_of_hex lines) then "ok" else "bad"
   | ["c3"; func], "OK" :: lines -> if spec_ok_literal (bytes_of_hex func) (List.map bytes_of_hex lines) then "ok" else "bad"
-  | ("c1" | "c2" | "c3") :: _, _ -> "bad"
+  | "c4" :: _, "OK" :: bufs -> if spec_ok_stream (List.map bytes_of_hex bufs) then "ok" else "bad"
+  | ("c1" | "c2" | "c3" | "c4") :: _, _ -> "bad"
   | _ -> "BADCASE"
 
 let () =
